@@ -338,8 +338,10 @@ def search_failing_input(cid, defs, n, n_inputs, rng, extra_values=(), var_ids=N
             f"map (fun e => forallb (fun p => Z.eqb (fst p) (snd p)) "
             f"(conc_progb bp_{cid} {ticks}%nat ds_{cid} qs_{cid} rs_{cid} bqs_{cid} (env_of e))) {lst}"
         )
-        rc, outs, text = H.coq_eval(defs, [expr], EXTRA, tag=f"srch{cid}")
+        rc, outs, text = H.coq_eval(defs, [expr], EXTRA, tag=f"srch{cid}", timeout=150)
         if not outs or outs[0] is None:
+            if rc == 124:
+                break  # the concrete evaluation itself is too expensive for this blueprint: stop searching
             continue
         flags = re.findall(r"true|false", outs[0])
         for e, f in zip(envs, flags):
